@@ -96,6 +96,17 @@ def admission_instance(policy, skind, dk, workers, second, grid=1):
     return inst
 
 
+def admission_many(policy, nh, dk, feasible_first):
+    """several hopeless tasks of different graphs offered next to each other in ONE invocation (plus a feasible one) on a
+    worker with room for all: every one of them is dropped / left unplaced, not only the first of a run"""
+    st = STRATS["one"]
+    hop = [mk_task([], st, state="REL", release=1, deadline=_deadline(st, dk), graph=f"H{i}") for i in range(nh)]
+    ok = [mk_task([], S1, state="REL", release=1, deadline=NOW + 12, graph="F")]
+    tasks = (ok + hop) if feasible_first else (hop + ok)
+    name = f"{policy}/admit-many/one/{dk}/h{nh}{'/ffirst' if feasible_first else ''}/g1"
+    return mk_inst(name, policy, tasks, [4], now=NOW, horizon=NOW + 9, grid=1, enforce=True, **_opts(policy))
+
+
 UNITS = (
     {"rt": "MS", "deadline": "US", "release": "US", "now": "US", "grid": "US"},
     {"rt": "US", "deadline": "MS", "release": "MS", "now": "MS", "grid": "MS"},
@@ -405,6 +416,11 @@ def all_instances():
                 for dk in DELTAS:
                     for workers in ([2], [1, 2]):
                         out.append(chain_instance(policy, mode, dk, workers, skind))
+    for policy in POLICIES:
+        for nh in (2, 3):
+            for dk in ("past", "tight-1"):
+                for ff in (False, True):
+                    out.append(admission_many(policy, nh, dk, ff))
     out += variant_instances()
     return out
 
@@ -422,7 +438,7 @@ def quick_selection(insts, n, rnd):
         sel.append(c)
         names.add(c["name"])
     for policy in POLICIES:
-        for cls in ("busy", "chain", "admit-multi", "admit-units", "busy-units"):
+        for cls in ("busy", "chain", "admit-multi", "admit-units", "busy-units", "admit-many"):
             cands = [i for i in insts if i["name"].startswith(f"{policy}/{cls}/") and i["name"] not in names]
             if cands:
                 c = rnd.choice(cands)
